@@ -3,7 +3,7 @@
 In one server process a request only gives way to other requests where it
 awaits `to_thread(...)` (loading a member, updating a member) and where it
 reads its request body (on the aiohttp front end the body may arrive later than
-the head; `xandikos.webdav._readBody` is the one place bodies are read).
+the head): `request.content.read()`, the interface both front ends share.
 Creates and deletes run inline.  So the interleavings of a request R with one other
 request W are exactly: W runs to completion at one of R's suspension points.
 This module enumerates them: `xandikos.web.to_thread` is replaced for the
@@ -46,34 +46,54 @@ class Injector:
             await self._inject()
         return func(*a, **kw)
 
-    async def read_body(self, request):
+    async def body_point(self):
         """The request body arrives late: another request is handled completely before it is there."""
         if self._in_other:
-            return await self._saved_read(request)
+            return
         k = self.count
         self.count += 1
         self.labels.append("read-body")
         if self.other is not None and k == self.inject_at and self.other_response is None:
             await self._inject()
-        return await self._saved_read(request)
 
     def __enter__(self):
         import xandikos.web as web
-        import xandikos.webdav as webdav
 
+        if not hasattr(web, "to_thread"):
+            raise BindError("xandikos.web has no attribute to_thread: the harness cannot place requests at thread hand-offs")
         self._saved = web.to_thread
         web.to_thread = self.to_thread
-        self._saved_read = webdav._readBody
-        webdav._readBody = self.read_body
+        _CURRENT.append(self)
         return self
 
     def __exit__(self, *a):
         import xandikos.web as web
-        import xandikos.webdav as webdav
 
         web.to_thread = self._saved
-        webdav._readBody = self._saved_read
+        _CURRENT.pop()
         return False
+
+
+class BindError(Exception):
+    """The harness cannot attach to the code under test (renamed entry point): a harness fault, never a violation."""
+
+
+_CURRENT = []
+
+
+class _Content:
+    """request.content of the request under the injector: reading it is a suspension point."""
+
+    def __init__(self, inner):
+        self._inner = inner
+
+    async def read(self, *a, **kw):
+        if _CURRENT:
+            await _CURRENT[-1].body_point()
+        return await self._inner.read(*a, **kw)
+
+    def __getattr__(self, name):
+        return getattr(self._inner, name)
 
 
 def _environ(method, target, headers, body, script_name=""):
@@ -97,6 +117,9 @@ async def handle(app, method, target, headers=None, body=b""):
 
     env = _environ(method, target, headers, body)
     request = WSGIRequest(env)
+    if not hasattr(request, "content") or not hasattr(app, "_handle_request"):
+        raise BindError("WSGIRequest.content / WebDAVApp._handle_request not found: the harness cannot run requests on its own event loop")
+    request.content = _Content(request.content)
     resp = await app._handle_request(request, {"SCRIPT_NAME": env["SCRIPT_NAME"], "ORIGINAL_ENVIRON": env})
     out = {}
 
